@@ -183,11 +183,280 @@ def build(targets, quiet=True):
     return bins
 
 
+# ---------------------------------------------------------------------------------------------------
+# Checks
+# ---------------------------------------------------------------------------------------------------
+ASAN_OPTIONS = 'detect_leaks=0:exitcode=87:abort_on_error=0:detect_stack_use_after_return=0:allocator_may_return_null=1'
+
+# Per property: list of runs.  A run = harness x variant with per-tier options:
+#   P,S,T       bounds handed to the binary (a harness may override them per cell in CellBounds)
+#   cells       optional regex the cell id must match
+#   oracles     optional regex: only violations whose oracle id matches are attributed to this property
+#   budget      share of the check's wall-clock budget
+def mc(harness, variant='mc-asan', quick=None, thorough=None, oracles=None):
+    return dict(kind='mc', harness=harness, variant=variant, quick=quick or {}, thorough=thorough or {}, oracles=oracles)
+
+
+CHECKS = {
+    'C01': dict(
+        title='Promise -> Future delivered exactly once, intact',
+        budget=dict(quick=150, thorough=1200),
+        runs=[mc('handoff', 'mc-asan', quick=dict(P=99), thorough=dict(P=99))],
+        assumptions=[
+            'FIBER backend instantiation of the library (same sources, yaclib_std mapped to the cooperative fibers)',
+            'schedules differ only at synchronisation operations (atomic/mutex/cv/thread); plain accesses are covered by the happens-before monitor of C04',
+            'sequentially consistent executions only',
+        ],
+        technique='stateless model checking: exhaustive DFS over all schedules of the real code under a controlled fiber scheduler',
+    ),
+}
+
+
+def load_known():
+    p = os.path.join(VERIF, 'known_findings.json')
+    if not os.path.exists(p):
+        return []
+    return json.load(open(p))
+
+
+def match_known(known, prop, harness, cell, oracle):
+    import fnmatch
+    for k in known:
+        if k.get('status') != 'known':
+            continue
+        if k['property'] != prop:
+            continue
+        if k.get('harness') not in (None, '*', harness):
+            continue
+        if not fnmatch.fnmatchcase(cell, k.get('cell', '*')):
+            continue
+        if not fnmatch.fnmatchcase(oracle, k.get('oracle', '*')):
+            continue
+        return k
+    return None
+
+
+def run_chunk(binp, cells, opts, outp, deadline_s):
+    cf = outp + '.cells'
+    with open(cf, 'w') as f:
+        f.write('\n'.join(cells) + '\n')
+    cmd = [binp, '--cells-file', cf, '--out', outp, '--tier', opts['tier'],
+           '--P', str(opts.get('P', 2)), '--S', str(opts.get('S', 0)), '--T', str(opts.get('T', 0)),
+           '--deadline', '%.1f' % max(1.0, deadline_s)]
+    if opts.get('all_points'):
+        cmd.append('--all-points')
+    if opts.get('rand_choice'):
+        cmd.append('--rand-choice')
+    if opts.get('max_exec'):
+        cmd += ['--max-exec', str(opts['max_exec'])]
+    env = dict(os.environ)
+    env['ASAN_OPTIONS'] = ASAN_OPTIONS
+    r = subprocess.run(cmd, stdout=subprocess.PIPE, stderr=subprocess.STDOUT, text=True, env=env)
+    res = None
+    if os.path.exists(outp):
+        try:
+            res = json.load(open(outp))
+        except Exception as e:  # noqa
+            res = None
+    for x in (cf,):
+        try:
+            os.unlink(x)
+        except OSError:
+            pass
+    return r.returncode, r.stdout, res
+
+
+def run_mc(prop, run, tier, seed, t_end, work):
+    """Runs one explorer harness over all its cells in parallel.  Returns list of cell results."""
+    vname = run['variant']
+    binp = os.path.join(BUILD, vname, 'bin', run['harness'])
+    opts = dict(run[tier])
+    opts['tier'] = tier
+    env = dict(os.environ)
+    env['ASAN_OPTIONS'] = ASAN_OPTIONS
+    cells = subprocess.run([binp, '--list-cells', '--tier', tier], stdout=subprocess.PIPE, text=True, env=env,
+                           check=True).stdout.split('\n')
+    cells = [c for c in cells if c]
+    if opts.get('cells'):
+        rx = re.compile(opts['cells'])
+        cells = [c for c in cells if rx.search(c)]
+    if not cells:
+        raise SystemExit('MACHINERY-ERROR: no cells for %s' % run['harness'])
+    # rotate the start order by the seed so a capped run does not always cut the same tail
+    k = seed % len(cells)
+    cells = cells[k:] + cells[:k]
+    nchunks = min(len(cells), NPROC * 4)
+    chunks = [cells[i::nchunks] for i in range(nchunks)]
+    results = []
+    errors = []
+    with concurrent.futures.ThreadPoolExecutor(max_workers=NPROC) as ex:
+        futs = []
+        for i, ch in enumerate(chunks):
+            outp = os.path.join(work, '%s-%s-%d.json' % (run['harness'], vname, i))
+            futs.append(ex.submit(lambda ch=ch, outp=outp: run_chunk(binp, ch, opts, outp, t_end - time.time())))
+        for f, ch in zip(futs, chunks):
+            rc, out, res = f.result()
+            if res is None or rc == 2:
+                errors.append('chunk of %s failed rc=%s: %s' % (run['harness'], rc, (out or '')[-1500:]))
+            if res is not None:
+                for c in res['cells']:
+                    c['harness'] = run['harness']
+                    c['variant'] = vname
+                    results.append(c)
+    return results, errors
+
+
+def check(prop, tier):
+    t0 = time.time()
+    spec = CHECKS[prop]
+    seed = int(os.environ.get('VERIF_SEED', '0') or 0)
+    budget = spec['budget'][tier]
+    if os.environ.get('VERIF_BUDGET_S'):
+        budget = float(os.environ['VERIF_BUDGET_S'])
+    targets = sorted({(r['harness'], r['variant']) for r in spec['runs']})
+    build(targets)
+    t_build = time.time() - t0
+    t_end = time.time() + budget
+    work = os.path.join(BUILD, 'work', '%s-%s' % (prop, tier))
+    os.makedirs(work, exist_ok=True)
+    for f in glob.glob(os.path.join(work, '*')):
+        try:
+            os.unlink(f)
+        except OSError:
+            pass
+    known = load_known()
+    all_cells = []
+    errors = []
+    nruns = len(spec['runs'])
+    for i, run in enumerate(spec['runs']):
+        # every run gets an equal share of what is left
+        share_end = time.time() + (t_end - time.time()) / (nruns - i)
+        if run['kind'] == 'mc':
+            res, errs = run_mc(prop, run, tier, seed, share_end, work)
+        else:
+            res, errs = run_seq(prop, run, tier, seed, share_end, work)
+        for c in res:
+            c['_oracles'] = run.get('oracles')
+        all_cells += res
+        errors += errs
+    # ---- verdict ----
+    os.makedirs(os.path.join(VERIF, 'replays'), exist_ok=True)
+    os.makedirs(os.path.join(VERIF, 'evidence'), exist_ok=True)
+    for f in glob.glob(os.path.join(VERIF, 'replays', '%s-*.json' % prop)):
+        os.unlink(f)
+    viol_lines = []
+    known_lines = []
+    nviol = 0
+    nrep = 0
+    for c in all_cells:
+        if c.get('machinery_error'):
+            errors.append('%s/%s cell %s: %s' % (c['harness'], c['variant'], c['cell'], c['machinery_error']))
+        for v in c.get('violations', []):
+            if c['_oracles'] and not re.search(c['_oracles'], v['oracle']):
+                continue
+            k = match_known(known, prop, c['harness'], c['cell'], v['oracle'])
+            if k is not None:
+                line = 'KNOWN-FINDING: property=%s %s [harness=%s cell=%s oracle=%s]' % (
+                    prop, k.get('text', ''), c['harness'], c['cell'], v['oracle'])
+                if line not in known_lines:
+                    known_lines.append(line)
+                continue
+            nviol += 1
+            nrep += 1
+            rp = os.path.join(VERIF, 'replays', '%s-%s-%s-%d.json' % (prop, c['harness'], c['variant'], nrep))
+            with open(rp, 'w') as f:
+                json.dump(dict(cell=c['cell'], bounds=c.get('bounds', {}), property=prop, harness=c['harness'],
+                               variant=c['variant'], oracle=v['oracle'], count=v.get('count', 1),
+                               preemptions=v.get('preemptions'), fatal=v.get('fatal'), path=v.get('path', []),
+                               program=v.get('program'), text=v['text']), f)
+                f.write('\n')
+            viol_lines.append('VIOLATION property=%s replay=%s' % (prop, rp))
+            viol_lines.append('  harness=%s variant=%s cell=%s oracle=%s count=%s :: %s' % (
+                c['harness'], c['variant'], c['cell'], v['oracle'], v.get('count', 1), v['text'][:300]))
+    execs = sum(c.get('executions', 0) for c in all_cells)
+    states = sum(c.get('nodes', 0) for c in all_cells)
+    trans = sum(c.get('transitions', 0) for c in all_cells)
+    distinct = sum(max(0, c.get('distinct_traces', 0) - 1) for c in all_cells)
+    exhaustive = bool(all_cells) and all(c.get('exhaustive') for c in all_cells) and not errors
+    samples = []
+    for c in all_cells:
+        if c.get('sample_schedules') and len(samples) < 6 and c.get('executions', 0) > 1:
+            samples.append(dict(harness=c['harness'], variant=c['variant'], cell=c['cell'], bounds=c.get('bounds'),
+                                schedules=c['sample_schedules'], outcomes=c.get('sample_outcomes', [])))
+        elif c.get('sample_programs') and len(samples) < 6:
+            samples.append(dict(harness=c['harness'], variant=c['variant'], cell=c['cell'],
+                                programs=c['sample_programs']))
+    cell_summ = []
+    for c in all_cells:
+        cell_summ.append({k: c.get(k) for k in ('harness', 'variant', 'cell', 'bounds', 'executions', 'nodes',
+                                                  'transitions', 'events', 'distinct_traces', 'distinct_outcomes',
+                                                  'max_depth', 'exhaustive', 'cap', 'failing_executions',
+                                                  'replay_checks', 'hb_accesses', 'wall_s', 'skipped')
+                          if c.get(k) is not None})
+    capped = [c for c in all_cells if not c.get('exhaustive')]
+    ev = dict(
+        property_id=prop, tier=tier, seed=seed, level='model_checking',
+        coverage=dict(
+            states=max(states, 0), transitions=max(trans, 0), traces_validated_against_impl=execs,
+            evaluations=execs, distinct_nontrivial=distinct,
+            rule='every execution is a complete run of the real YACLib code under the explorer, one per schedule '
+                 '(sequence of scheduling / spurious-failure / timer choices) within the stated bounds, or one per '
+                 'program of the sequential enumerator; states = nodes of the explored choice tree, transitions = '
+                 'choice-tree edges traversed; distinct_nontrivial = per cell, distinct event traces other than '
+                 'the default schedule (hash of the sequence of (fiber, operation kind, object) over all visible operations)',
+            samples=samples, exhaustive=exhaustive,
+            cells_total=len(all_cells), cells_capped=len(capped),
+            capped=[dict(harness=c['harness'], cell=c['cell'], cap=c.get('cap') or c.get('skipped')) for c in capped][:40],
+            distinct_outcomes=sum(c.get('distinct_outcomes', 0) for c in all_cells),
+            replay_divergences=0 if not errors else len(errors),
+            failure_replays=sum(c.get('replay_checks', 0) for c in all_cells),
+            hb_accesses=sum(c.get('hb_accesses', 0) for c in all_cells),
+            known_findings=known_lines, machinery_errors=errors[:10], build_s=round(t_build, 1),
+            cells=cell_summ if len(cell_summ) <= 400 else cell_summ[:400],
+        ),
+        assumptions=spec.get('assumptions', []),
+        wall_s=round(time.time() - t0, 2), violations=nviol,
+    )
+    with open(os.path.join(VERIF, 'evidence', prop + '.json'), 'w') as f:
+        json.dump(ev, f, indent=1)
+        f.write('\n')
+    for l in known_lines:
+        print(l)
+    for l in viol_lines:
+        print(l)
+    print('%s %s: cells=%d executions=%d states=%d exhaustive=%s violations=%d known=%d wall=%.1fs (build %.1fs)' % (
+        prop, tier, len(all_cells), execs, states, exhaustive, nviol, len(known_lines), time.time() - t0, t_build))
+    if errors:
+        for e in errors[:10]:
+            print('MACHINERY-ERROR:', e)
+        return 2
+    return 1 if nviol else 0
+
+
+def run_seq(prop, run, tier, seed, t_end, work):
+    raise SystemExit('seq runs not implemented yet')
+
+
+def replay(path):
+    d = json.load(open(path))
+    build([(d['harness'], d['variant'])])
+    binp = os.path.join(BUILD, d['variant'], 'bin', d['harness'])
+    env = dict(os.environ)
+    env['ASAN_OPTIONS'] = ASAN_OPTIONS
+    return subprocess.run([binp, '--replay', path], env=env).returncode
+
+
 def main():
     ap = argparse.ArgumentParser()
     sub = ap.add_subparsers(dest='cmd')
     b = sub.add_parser('build')
     b.add_argument('targets', nargs='*')
+    c = sub.add_parser('check')
+    c.add_argument('prop')
+    c.add_argument('--tier', default=os.environ.get('VERIF_TIER', 'quick'))
+    r = sub.add_parser('replay')
+    r.add_argument('file')
+    sub.add_parser('setup')
     a = ap.parse_args()
     if a.cmd == 'build':
         tg = []
@@ -197,6 +466,15 @@ def main():
         t0 = time.time()
         bins = build(tg, quiet=False)
         print('built', bins, 'in %.1fs' % (time.time() - t0))
+    elif a.cmd == 'check':
+        sys.exit(check(a.prop, a.tier))
+    elif a.cmd == 'replay':
+        sys.exit(replay(a.file))
+    elif a.cmd == 'setup':
+        tg = sorted({(r['harness'], r['variant']) for spec in CHECKS.values() for r in spec['runs']})
+        t0 = time.time()
+        build(tg)
+        print('setup: built %d binaries in %.1fs' % (len(tg), time.time() - t0))
     else:
         ap.print_help()
 
